@@ -234,3 +234,122 @@ Proof.
   intros W1 W2 E. apply render_inj in E; try (apply wfp_rewrite, wfp_std).
   pose proof (denotes t1 W1) as D1. pose proof (denotes t2 W2) as D2. rewrite E in D1. congruence.
 Qed.
+
+(* ---- an explicit fuel: the reader needs no more fuel than the printed tree has nodes (segments and list
+   cells counted) - replaces "for all large enough fuel" by a computable bound *)
+Fixpoint cost (a : past) : nat :=
+  match a with
+  | PPath _ segs =>
+      S ((fix cs (l : list (ident * list past)) : nat :=
+            match l with
+            | [] => 0
+            | s :: r => S ((fix cl (l : list past) : nat := match l with [] => 0 | x :: r => S (cost x + cl r) end) (snd s) + cs r)
+            end) segs)
+  | PTuple ts => S (S ((fix cl (l : list past) : nat := match l with [] => 0 | x :: r => S (cost x + cl r) end) ts))
+  | PArray t _ => S (cost t)
+  | PSlice t => S (cost t)
+  end.
+Definition cost_list (l : list past) : nat :=
+  (fix cl (l : list past) : nat := match l with [] => 0 | x :: r => S (cost x + cl r) end) l.
+Definition cost_segs (l : list (ident * list past)) : nat :=
+  (fix cs (l : list (ident * list past)) : nat := match l with [] => 0 | s :: r => S (cost_list (snd s) + cs r) end) l.
+Lemma cost_path lead segs : cost (PPath lead segs) = S (cost_segs segs).
+Proof. reflexivity. Qed.
+Lemma cost_tuple ts : cost (PTuple ts) = S (S (cost_list ts)).
+Proof. reflexivity. Qed.
+Lemma cost_list_cons x r : cost_list (x :: r) = S (cost x + cost_list r).
+Proof. reflexivity. Qed.
+Lemma cost_segs_cons s r : cost_segs (s :: r) = S (cost_list (snd s) + cost_segs r).
+Proof. reflexivity. Qed.
+
+Definition Rc (a : past) : Prop :=
+  forall rest f, ok rest -> cost a <= f -> pty f (render a ++ rest) = Some (a, rest).
+
+Lemma Rc_list l : l <> [] -> Forall Rc l -> forall rest f, okc rest -> cost_list l <= f ->
+  plist f (sep_by [KComma] (map render l) ++ rest) = Some (l, rest).
+Proof.
+  induction l as [|a l IH]; intros Hne HF rest f Hok Hf; [congruence|]. inversion HF as [|? ? Ha HF']; subst.
+  rewrite cost_list_cons in Hf. destruct f as [|f]; [lia|].
+  destruct l as [|b l].
+  - cbn [map]. rewrite sep_by_one.
+    assert (Hok' : ok rest) by (destruct rest as [|[] ?]; simpl in *; auto).
+    cbn [plist]. rewrite (Ha rest f Hok') by lia. destruct rest as [|[] ?]; simpl in Hok; try contradiction; reflexivity.
+  - cbn [map]. rewrite sep_by_cons2. rewrite <- !app_assoc.
+    pose proof (Ha ([KComma] ++ sep_by [KComma] (map render (b :: l)) ++ rest) f Logic.I ltac:(lia)) as H1.
+    cbn [plist app] in H1 |- *. cbn [map] in H1 |- *. rewrite H1.
+    cbn [map] in IH. rewrite (IH ltac:(discriminate) HF' rest f Hok) by lia. reflexivity.
+Qed.
+
+Lemma Rc_segs segs : segs <> [] -> Forall (fun s => Forall Rc (snd s)) segs -> forall rest f, ok rest -> cost_segs segs <= f ->
+  psegs f (sep_by [KColon2] (map seg_r segs) ++ rest) = Some (segs, rest).
+Proof.
+  induction segs as [|[i args] segs IH]; intros Hne HF rest f Hok Hf; [congruence|]. inversion HF as [|? ? Ha HF']; subst.
+  simpl in Ha. rewrite cost_segs_cons in Hf. simpl snd in Hf. destruct f as [|f]; [lia|].
+  destruct segs as [|s2 segs].
+  - cbn [map]. rewrite sep_by_one. destruct args as [|a args].
+    + simpl. destruct rest as [|[] ?]; simpl in Hok; try contradiction; reflexivity.
+    + cbn [seg_r]. cbn [app]. rewrite <- app_assoc. cbn [psegs app].
+      rewrite (Rc_list (a :: args) ltac:(discriminate) Ha (KGt :: rest) f Logic.I) by lia.
+      destruct rest as [|[] ?]; simpl in Hok; try contradiction; reflexivity.
+  - cbn [map]. rewrite sep_by_cons2. rewrite <- !app_assoc.
+    cbn [map] in IH. destruct args as [|a args].
+    + cbn [seg_r app psegs]. rewrite (IH ltac:(discriminate) HF' rest f Hok) by lia. reflexivity.
+    + cbn [seg_r]. cbn [app]. rewrite <- app_assoc. cbn [psegs app].
+      pose proof (Rc_list (a :: args) ltac:(discriminate) Ha (KGt :: [KColon2] ++ sep_by [KColon2] (seg_r s2 :: map seg_r segs) ++ rest) f Logic.I ltac:(lia)) as H1.
+      cbn [app] in H1 |- *. rewrite H1.
+      rewrite (IH ltac:(discriminate) HF' rest f Hok) by lia. reflexivity.
+Qed.
+
+Theorem read_render_cost : forall a, wfp a -> Rc a.
+Proof.
+  induction a using past_ind'; intros W; inversion W; subst.
+  - match goal with Hne : segs <> [], HW : Forall _ segs |- _ => rename Hne into Hsegs; rename HW into Hw end.
+    assert (HR : Forall (fun s => Forall Rc (snd s)) segs).
+    { rewrite Forall_forall in *. intros s Hs. rewrite Forall_forall. intros x Hx.
+      specialize (H s Hs). rewrite Forall_forall in H. apply (H x Hx).
+      specialize (Hw s Hs). rewrite Forall_forall in Hw. auto. }
+    intros rest f Hok Hf. rewrite cost_path in Hf. destruct f as [|f]; [lia|]. rewrite render_path. destruct lead.
+    + cbn [app pty]. rewrite (Rc_segs segs Hsegs HR rest f Hok) by lia. reflexivity.
+    + cbn [app]. destruct segs as [|[i args] r]; [congruence|].
+      assert (Hs : exists tl, sep_by [KColon2] (map seg_r ((i, args) :: r)) ++ rest = KId i :: tl).
+      { destruct r; cbn [map]; [rewrite sep_by_one|rewrite sep_by_cons2]; destruct args; simpl; eauto. }
+      destruct Hs as [tl Etl]. pose proof (Rc_segs _ Hsegs HR rest f Hok ltac:(lia)) as H1.
+      rewrite Etl in *. cbn [pty]. rewrite H1. reflexivity.
+  - match goal with HW : Forall wfp ts |- _ => rename HW into Hw end.
+    assert (HR : Forall Rc ts) by (rewrite Forall_forall in *; intros x Hx; auto).
+    intros rest f Hok Hf. rewrite cost_tuple in Hf. destruct f as [|f]; [lia|]. destruct ts as [|a [|b l]].
+    + reflexivity.
+    + inversion HR as [|? ? Ha _]; subst. inversion Hw as [|? ? Wa _]; subst.
+      rewrite cost_list_cons in Hf.
+      cbn [render app]. rewrite <- app_assoc.
+      pose proof (render_starts a Wa ([KComma; KRParen] ++ rest)) as Hst. pose proof (not_rparen _ Hst) as Hnr.
+      pose proof (Ha ([KComma; KRParen] ++ rest) f Logic.I ltac:(lia)) as H1.
+      destruct (render a ++ [KComma; KRParen] ++ rest) as [|k tl] eqn:Etl; [destruct Hst|].
+      cbn [pty]. destruct k; try contradiction; rewrite H1; reflexivity.
+    + inversion HR as [|? ? Ha HR']; subst. inversion Hw as [|? ? Wa Hw']; subst. inversion Hw' as [|? ? Wb _]; subst.
+      rewrite cost_list_cons in Hf.
+      set (tail := sep_by [KComma] (map render (b :: l)) ++ KRParen :: rest) in *.
+      assert (Er : render (PTuple (a :: b :: l)) ++ rest = KLParen :: render a ++ KComma :: tail).
+      { unfold tail. change (render (PTuple (a :: b :: l))) with (KLParen :: sep_by [KComma] (map render (a :: b :: l)) ++ [KRParen]).
+        cbn [map]. rewrite sep_by_cons2. cbn [app]. rewrite <- !app_assoc. reflexivity. }
+      rewrite Er.
+      pose proof (render_starts a Wa (KComma :: tail)) as Hst. pose proof (not_rparen _ Hst) as Hnr.
+      assert (Htl : match tail with KRParen :: _ => False | _ => True end).
+      { unfold tail. destruct l; cbn [map]; [rewrite sep_by_one|rewrite sep_by_cons2]; rewrite <- ?app_assoc; apply not_rparen, render_starts; auto. }
+      pose proof (Ha (KComma :: tail) f Logic.I ltac:(lia)) as H1.
+      pose proof (Rc_list (b :: l) ltac:(discriminate) HR' (KRParen :: rest) f Logic.I ltac:(lia)) as H2. fold tail in H2.
+      destruct (render a ++ KComma :: tail) as [|k tl] eqn:Etl; [destruct Hst|].
+      cbn [pty]. destruct k; try contradiction; rewrite H1;
+        (destruct tail as [|k2 tl2] eqn:Et; [rewrite H2; reflexivity|destruct k2; try contradiction; rewrite H2; reflexivity]).
+  - intros rest f Hok Hf. simpl cost in Hf. destruct f as [|f]; [lia|].
+    cbn [render app pty]. rewrite <- app_assoc. rewrite (IHa ltac:(assumption) ([KSemi; KNum n; KRBrack] ++ rest) f Logic.I) by lia. reflexivity.
+  - intros rest f Hok Hf. simpl cost in Hf. destruct f as [|f]; [lia|].
+    cbn [render app pty]. rewrite <- app_assoc. rewrite (IHa ltac:(assumption) ([KRBrack] ++ rest) f Logic.I) by lia. reflexivity.
+Qed.
+
+(* the printed name, read with the fuel computed from the tree, denotes the type *)
+Theorem name_denotes_cost t : wf_ty t -> denoted (cost (rewrite (std_ast t))) (recorded_name t) = Some t.
+Proof.
+  intros W. pose proof (read_render_cost _ (wfp_rewrite _ (wfp_std t)) [] _ Logic.I (le_n _)) as H0.
+  unfold denoted, read, recorded_name. rewrite app_nil_r in H0. rewrite H0. apply denotes. exact W.
+Qed.
